@@ -1,8 +1,8 @@
 (* C09 driver.  argv[1] = case file, optional argv[2] = the implementation's output for the same cases.
-   Case line:  <P|C><G|U|V><S|N>[:<elem>:<cmp>:<via>[:<store>]] <sentinel> [o=<i>,<i>,...] <seq> <seq> ...   with <seq> = "-" (empty) or "k,k,k".
+   Case line:  <P|C><G|U|V><S|N>[:<elem>:<cmp>:<via>[:<store>[:<extra>]]] <sentinel> [o=<i>,<i>,...] [m=<n>,...] <seq> <seq> ...   with <seq> = "-" (empty) or "k,k,k".
    <elem>, <via> and <store> (element size, direct class / switch alias / moved, where the caller keeps the keys) do not
-   exist in the model; <cmp> = gt | st- selects
-   the instances with the comparator reversed (coq/C09/Instances.v), lt | st+ | df the ones with N.ltb.
+   exist in the model; <cmp> = gt | rk- selects
+   the instances with the comparator reversed (coq/C09/Instances.v), lt | rk+ | df the ones with N.ltb.
    V = unguarded class driven outside its key precondition (keys may exceed the sentinel; the caller consults the tree
    only while some current key beats the sentinel): model = run_gN, checker = check_gN.
    Output line: "<model trace>" and, when argv[2] is given, " ; chk=<ok|BAD|PARSE>" = verdict of the
@@ -36,8 +36,10 @@ let () =
       | head :: sent :: seqs when String.length head >= 3 && (String.length head = 3 || head.[3] = ':') ->
         let parts = String.split_on_char ':' head in
         let vs = List.hd parts in
-        let rev = (match parts with _ :: _ :: c :: _ -> c = "gt" || c = "st-" | _ -> false) in
+        let rev = (match parts with _ :: _ :: c :: _ -> c = "gt" || c = "st-" || c = "rk-" | _ -> false) in
         let v = parse_variant vs in
+        (* m=... (move points) is a C++-only dimension: the model treats a move as the identity *)
+        let seqs = List.filter (fun t -> not (String.length t >= 2 && String.sub t 0 2 = "m=")) seqs in
         let (order, seqs) = (match seqs with
           | o :: rest when String.length o >= 2 && String.sub o 0 2 = "o=" ->
             (List.map (fun x -> n_of_int (int_of_string x)) (String.split_on_char ',' (String.sub o 2 (String.length o - 2))), rest)
